@@ -2,7 +2,7 @@
    Property theorems only; every proof is `exact <lemma>`. *)
 From Coq Require Import List String ZArith NArith Bool Permutation.
 From AV Require Import Model.VTypes Model.Interval Model.CL Model.VerifierLegacy Model.VerifierW3C Model.VCfg Model.VProps Model.CaseV
-  Proofs.IntervalProofs Proofs.C02Proofs Proofs.C08Proofs.
+  Proofs.IntervalProofs Proofs.C02Proofs Proofs.C08Proofs Proofs.C08T1 Proofs.C08T2 Proofs.C08T3 Model.Prover Model.PProps Proofs.C04F10 Proofs.C04G6.
 Import ListNotations.
 Open Scope Z_scope.
 
@@ -34,10 +34,28 @@ Theorem C08_outside_rejected : forall cfg c,
   case_wf c = true -> c08_sound c (run_model cfg c) = true.
 Proof. exact c08_sound_model. Qed.
 
-(* a timestamp that meets the demand of every referent the credential serves passes the interval
-   stage (legacy form); PARTIAL: the end-to-end statement "... hence the presentation is accepted if
-   it is accepted without intervals" is decided by the correspondence run (base verdict), not proved *)
-Theorem C08_demands_met_stage_passes_partial : forall cfg R P cx cd k id rid t local,
+(* COMPLETENESS, legacy format, for EVERY request, presentation and context: if the verifier model accepts
+   the presentation under the same request with every interval removed, and for every sub-proof of a
+   revocable credential to which an interval applies the named timestamp meets the demand of every referent
+   it serves (own interval if it has one, the request-wide one otherwise, lower bounds overridden), a status
+   list and registry key exist for it and the non-revocation part is valid for them (demands_ok: literally
+   the premise the correspondence evaluates in ok_C08), then the verifier model accepts under the request
+   itself. served_nonempty: every sub-proof of a revocable credential serves a referent (the prover emits no
+   others; for one that serves none the code still applies the request-wide interval). The W3C converse is
+   decided per case only (the W3C verifier has no referent map and searches for a credential). *)
+Theorem C08_legacy_complete : forall R P cx,
+  verify_legacy cfg_fixed (nonr_req R) P cx = Accept -> demands_ok R P cx = true -> served_nonempty R P cx = true ->
+  verify_legacy cfg_fixed R P cx = Accept.
+Proof. exact c08_legacy_complete. Qed.
+Theorem C08_complete_nonvacuous :
+  exists P, create_legacy pcfg_fixed g_req g_cx 7 (pc_sel g_case) (pc_self g_case) = ROk P /\
+    verify_legacy cfg_fixed (nonr_req g_req) P g_cx = Accept /\ demands_ok g_req P g_cx = true /\ served_nonempty g_req P g_cx = true /\
+    verify_legacy cfg_fixed g_req P g_cx = Accept /\
+    demands_ok g_req_late P g_cx = false /\ verify_legacy cfg_fixed (nonr_req g_req_late) P g_cx = Accept /\ verify_legacy cfg_fixed g_req_late P g_cx = Err.
+Proof. exact c08_complete_nonvacuous. Qed.
+
+(* the interval stage alone (any flags) *)
+Theorem C08_demands_met_stage_passes : forall cfg R P cx cd k id rid t local,
   f_gate_on_creddef cfg = true -> f_unrev_intervals cfg = true ->
   local_interval cfg R P k = ROk local -> id_revreg id = Some rid -> id_ts id = Some t ->
   all_demands_met R cx (Some rid) (demands_legacy R P k) t = true ->
@@ -58,5 +76,7 @@ Print Assumptions C08_override_from.
 Print Assumptions C08_missing_bounds_open.
 Print Assumptions C08_D_subset_T.
 Print Assumptions C08_outside_rejected.
-Print Assumptions C08_demands_met_stage_passes_partial.
+Print Assumptions C08_demands_met_stage_passes.
+Print Assumptions C08_legacy_complete.
+Print Assumptions C08_complete_nonvacuous.
 Print Assumptions C08_nonrevocable_ignores_intervals.
